@@ -408,6 +408,31 @@ example : Ex.sS.wf Ex.env0 = true ∧ Ex.env0.struct? "ns.S" = some Ex.sS := by
   · decide +kernel
   · rfl
 
+/-- **Omitted tags cannot be supplied in strict mode.** Decoding, at a union type, the short form
+`"tag"` or the object form `{".tag": "tag", ...}` of a tag that is not present for the caller is a
+validation error. -/
+theorem omitted_tag_rejected_strict (E : Ext) (env : Env) (perms : List String) (fl : Flags) (cls tag : String)
+    (u : UnionDef) (hu : env.union? cls = some u) (hp : u.isTagPresent tag perms = false) :
+    decode E env perms true (.union fl cls) (.str tag) = .error (.verr "unknown tag") ∧
+    ∀ kvs, jsonLookup ".tag" kvs = some (.str tag) →
+      decode E env perms true (.union fl cls) (.obj kvs) = .error (.verr "unknown tag") :=
+  ⟨decode_union_str_absent E env perms fl cls tag u hu hp,
+   fun kvs ht => decode_union_obj_absent E env perms fl cls tag kvs u hu ht hp⟩
+
+/-- with unique tag names, for a tag omitted for a caller class the caller does not hold -/
+theorem omitted_tag_rejected_strict_of_omitted (E : Ext) (env : Env) (perms : List String) (fl : Flags)
+    (cls : String) (u : UnionDef) (t : TagDef) (p : String) (hu : env.union? cls = some u)
+    (hnd : nodupS ((u.levels.flatMap (·.tags)).map (·.name)) = true)
+    (ht : t ∈ u.levels.flatMap (·.tags)) (ho : t.omitted = some p) (hc : ¬ p ∈ perms) :
+    decode E env perms true (.union fl cls) (.str t.name) = .error (.verr "unknown tag") :=
+  (omitted_tag_rejected_strict E env perms fl cls t.name u hu
+    (isTagPresent_false_of_omitted u perms t p hnd ht ho hc)).1
+
+example : Ex.isVerrR (decode Ex.E0 Ex.env0 [] true (.union {} "ns.U") (.str "hid")) = true ∧
+    Ex.isVerrR (decode Ex.E0 Ex.env0 [] true (.union {} "ns.U") (.obj [(".tag", .str "hid")])) = true ∧
+    Ex.isVerrR (decode Ex.E0 Ex.env0 ["c"] true (.union {} "ns.U") (.str "hid")) = false ∧
+    Ex.isVerrR (decode Ex.E0 Ex.env0 [] true (.union {} "ns.U") (.str "pub")) = false := by decide +kernel
+
 /-! ### 5. Omitted members are present for callers holding the permission -/
 
 /-- **Present with the permission.** If the caller holds `c`, a field omitted for `c` whose slot is
